@@ -9,7 +9,7 @@ META = {
     'design_ref': 'DESIGN.md §5 C03',
     'text': 'Kernel-checked: for apk `installed`, gradle.lockfile, Gemfile.lock, dpkg `status` and requirements.txt the byte-level model of the extractor returns exactly the '
             'generated (name, version) list for every record list and every layout (record order, per-line LF/CRLF, final newline or not, any number of blank lines, comments, '
-            'unrelated fields, white space); for package-lock.json v1-v3, composer.lock, Cargo.lock, poetry.lock, Pipfile.lock, packages.lock.json and go.mod the record loop over '
+            'unrelated fields, white space; dpkg: the fields of a stanza in any permutation, case-insensitive field names, continuation lines; requirements.txt: the core grammar name[extras] op version # comment — environment markers, per-requirement options and backslash continuations are covered by the differential stream only); for package-lock.json v1-v3, composer.lock, Cargo.lock, poetry.lock, Pipfile.lock, packages.lock.json and go.mod the record loop over '
             'the decoded document equals the set comprehension (flattening, de-duplication, aliases, file:/git versions, replace directives, sections). The models are tied to the Go '
             'code by running both on generated files (0..40 records x layouts; thorough adds every layout of every <=3-record set) and on a malformed stream; the oracle compares the '
             "IMPLEMENTATION's (name, version) multiset with the generated package set for all twelve formats.",
@@ -90,6 +90,9 @@ def run(ctx):
 
     lib.standard_stream(ctx, gen='c03gen', driver='drv_c03', gen_args=['-seed', str(ctx.seed), '-n', str(n), '-tier', ctx.tier],
                         compare_keys=['pk'], nontrivial=nontrivial, oracle=oracle, classify=classify, finding_class=finding_class)
+    ctx.notes.append('observations outside the well-formed generator (model and implementation agree; not counted as violations): '
+                     'a Gemfile.lock line of >= 64 KiB silently ends the file without an error; requirements.txt `foo>1.0` and `foo @ url` lines are dropped; '
+                     'go.mod replace directives are chained (a => b, b => c reports c); packages.lock.json `"type": "Project"` references are reported as packages with an empty version')
     per = {}
     for k, v in ctx.dist.items():
         f = k.split('/')[0]
